@@ -71,7 +71,7 @@ CLAIMED = {
              "time under a reentrant lock - read off _perform_transition by gen_statemachines, C18_transitions_are_locked is the obligation (atomicity of a `with lock:` body is trusted) - "
              "so a concurrent execution is a sequence of whole transitions; without the lock two states end up active (C18_concurrent_refuted, D75). For ANY hierarchical machine (any forest with parents declared before "
              "children, any depth) whose callbacks request nothing, every allowed request reaches its destination and leaves exactly the destination and its ancestors "
-             "active (C18_hierarchical_consistent, by induction along the ancestor chains); random forests are also compared with the reference by correspondence. State.enter, State.leave and _perform_transition are read statement by statement on every run (Gen/Engine.v); the model's chains are written for exactly these sequences of steps (C18_engine_as_translated).",
+             "active (C18_hierarchical_consistent, by induction along the ancestor chains); random forests are also compared with the reference by correspondence. State.enter, State.leave and _perform_transition are read statement by statement on every run (Gen/Engine.v); the model's enter / leave chains and its transition function are proved equal to interpreters of these regenerated sequences, for every machine, handler table and state (C18_engine_code_is_model).",
         note=NOTE_COMMON + " Handler programs are modelled as lists of requested transition names; what else a callback does is outside the engine. Concurrency is modelled at the granularity check / leave / set / enter / called.",
         technique="Rocq proof (induction over nested requests; exhaustive finite-table conformance by vm_compute + forallb lifting; refutation witnesses) + translator-regenerated machine tables + in-Coq differential correspondence on random machines",
         design="5/C18",
